@@ -20,6 +20,17 @@ tsink     failure-free chains holding a sink under num_threads 0..3 with slow
           records: every record is written exactly once, close() is called
           exactly once, after the last write has returned.
 
+fresult   the failure class "the function returns normally but its RESULT is
+          unusable by the operator": a filter predicate whose result cannot be
+          truth-tested for chosen units, the filter at every position of the
+          chain (only / first / middle / last operator).  Judged by
+          C12.check_case with the oracle of a raising predicate.
+restore   a chain with a sink, single-threaded, checkpointed after a random
+          number of deliveries, restored, the original iterator dropped (del +
+          gc.collect()), the restored one run to the end: every record is
+          delivered and written exactly once over original + restored, the
+          sink is closed exactly once and never written after close.
+
 Everything random comes from random.Random(f(seed, index)); a case dict is
 self-contained (literal chain, records, fault) and is re-executed by
 `run_case`.
@@ -48,14 +59,33 @@ M_INDEXERROR = 'source-error-first-operator-assign-filter-sink-indexerror'
 M_AGG = 'threads-not-released-after-aggregate-error'
 M_DOWNSTREAM = 'threads-not-released-after-downstream-stage-error'
 M_SINK = 'threaded-sink-closed-per-worker-thread'
+M_TRUTH = 'filter-truth-test-outside-error-skipping'
+M_ABANDONED = 'abandoned-pre-restore-iterator-closes-shared-sink'
+FRESULT_POS = ['only', 'first', 'middle', 'last']
+FRESULT_FORMS = ['array2', 'boolraises']
+
+
+CAPPED = (M_TRUTH, M_ABANDONED)
+KEEP_PER_CHUNK = 4
+
+
+def keep_witness(ctx, kind, mech):
+  """Every hit of a characterised mechanism is counted ('viol:<mechanism>'); only the
+  first few per chunk and kind are kept as witnesses, so that they cannot crowd out
+  another violation class."""
+  if mech not in CAPPED:
+    return True
+  name = f'kept:{kind}:{mech}'
+  ctx.count(name)
+  return ctx.counters[name] <= KEEP_PER_CHUNK
 
 
 def plan(tier, seed):
-  """Chunk specs of the three families (the sleeping `release` chunks first)."""
+  """Chunk specs of the families (the sleeping `release` chunks first)."""
   if tier == 'quick':
-    rel, snk, src = (16, 16), (8, 12), (12, 11)
+    rel, snk, src, fres, rst = (16, 16), (8, 12), (12, 11), (12, 12), (4, 60)
   else:
-    rel, snk, src = (32, 64), (16, 60), (32, 33)
+    rel, snk, src, fres, rst = (32, 64), (16, 60), (32, 33), (24, 24), (8, 400)
   # a small mixed chunk first: the first replays written cover every family
   specs = [{'mode': 'showcase', 'rseed': seed}]
   for c in range(rel[0]):
@@ -67,6 +97,12 @@ def plan(tier, seed):
   for c in range(snk[0]):
     specs.append({'mode': 'tsink', 'rseed': seed, 'lo': c * snk[1],
                   'hi': (c + 1) * snk[1]})
+  for c in range(fres[0]):
+    specs.append({'mode': 'fresult', 'rseed': seed, 'lo': c * fres[1],
+                  'hi': (c + 1) * fres[1]})
+  for c in range(rst[0]):
+    specs.append({'mode': 'restore', 'rseed': seed, 'lo': c * rst[1],
+                  'hi': (c + 1) * rst[1]})
   return specs
 
 
@@ -91,6 +127,16 @@ def run_chunk(ctx, spec):
         ctx.count('tsink_not_generated')
       else:
         check_tsink(ctx, case)
+  elif mode == 'fresult':
+    for sidx in range(spec['lo'], spec['hi']):
+      run_fresult_scenario(ctx, spec['rseed'], sidx, spec['tier'])
+  elif mode == 'restore':
+    for idx in range(spec['lo'], spec['hi']):
+      case = gen_restore(spec['rseed'], idx, spec['tier'])
+      if case is None:
+        ctx.count('restore_not_generated')
+      else:
+        check_restore(ctx, case)
   elif mode == 'showcase':
     # indices far outside the ranges of the other chunks (no case is run twice)
     far = len(FIRST_KINDS) * len(SRC_MODES) * 3 * 1000  # first kind / mode / threads kept
@@ -102,6 +148,13 @@ def run_chunk(ctx, spec):
       check_tsink(ctx, case)
     cases = [gen_release(spec['rseed'], 1200000 + i, spec['tier']) for i in range(4)]
     run_release_batch(ctx, [c for c in cases if c is not None])
+    # filter in the middle / as the last operator, skipping on, no threads
+    for pos in (2, 3):
+      run_fresult_scenario(ctx, spec['rseed'], 1300032 + pos, spec['tier'], max_cases=1)
+    for i in range(2):
+      case = gen_restore(spec['rseed'], 1400000 + i, spec['tier'])
+      if case is not None:
+        check_restore(ctx, case)
   else:
     raise ValueError(mode)
 
@@ -112,6 +165,8 @@ def run_case(ctx, case):
     run_release_batch(ctx, [case])
   elif fam == 'tsink':
     check_tsink(ctx, case)
+  elif fam == 'restore':
+    check_restore(ctx, case)
   else:
     raise ValueError(fam)
 
@@ -904,4 +959,225 @@ def check_tsink(ctx, case):
   if finished and any(k == 'data' for k, _ in box['res']):
     viol('data_after_end', {'extra': C08.short(box['res'])})
   if len(ctx.samples) < 5 and nt >= 2:
+    ctx.sample({k: v for k, v in case.items() if k != 'records'})
+
+
+# ---------------------------------------------------------------------------
+# fresult: the predicate returns normally, its result cannot be truth-tested
+# ---------------------------------------------------------------------------
+
+
+def gen_fresult(rseed, sidx, tier):
+  """Base case (no failing units yet) and the number of units of the filter."""
+  from vlib import pipeline_gen as g
+  from vlib.oracles import pipeline_interp as interp
+  from vlib.props import C12
+  rng = random.Random(f'C12U:{rseed}:{sidx}')
+  pos = FRESULT_POS[sidx % 4]
+  nt = (sidx // 4) % 3
+  ignore = (sidx // 12) % 3 != 2
+  form = FRESULT_FORMS[(sidx // 36) % 2]
+  exc = ['ValueError', 'TypeError'][(sidx // 72) % 2]
+  n_max = 8 if tier == 'quick' else rng.choice([8, 12, 20])
+  kinds_ctx = [k for k in g.KINDS if k != 'batch' or nt < 2]
+  for _ in range(80):
+    shape = rng.choice(['dict', 'dict', 'list', 'int', 'tuple'])
+    _, records = g.gen_records(rng, shape=shape, n=rng.randint(4, n_max))
+    state = ([], [g.dec(g.enc(r)) for r in records], frozenset())
+    if pos in ('middle', 'last'):
+      state = g.gen_chain(rng, records, rng.choice([1, 1, 2]), kinds=kinds_ctx,
+                          rebatch_ok=nt < 2, c12_assign=True)
+      if not state[0] or len(state[1]) < 3:
+        continue
+    op = None
+    for _try in range(200):
+      op = g.propose(rng, state[1], state[2], kinds=['filter'], rebatch_ok=False,
+                     c12_assign=True)
+      if op is None:
+        continue
+      # a filter in front of every output key is a repaired C08 defect, not a trigger
+      if [t for t in g.op_triggers(op, state[2]) if t != 'filter-before-any-output-key']:
+        op = None
+        continue
+      try:
+        state2 = g._extend(state, op)  # pylint: disable=protected-access
+      except Exception:  # pylint: disable=broad-exception-caught
+        op = None
+        continue
+      break
+    if op is None:
+      continue
+    tidx = len(state[0])
+    state = state2
+    if pos in ('first', 'middle'):
+      if not state[1]:
+        continue
+      state = g.gen_chain(rng, records, rng.choice([1, 1, 2]), kinds=kinds_ctx,
+                          rebatch_ok=nt < 2, c12_assign=True, state=state)
+      if len(state[0]) == tidx + 1:
+        continue
+    chain = state[0]
+    for i, o in enumerate(chain):
+      o['id'] = i
+    stream = [g.dec(g.enc(r)) for r in records]
+    for o in chain[:tidx]:
+      stream = interp.run_op(o, stream, g.resolve)
+    probe = C12.Probe(g.resolve(chain[tidx]))
+    interp.run_op(chain[tidx], stream, lambda _op, p=probe: p, skip=True)
+    if len(set(probe.keys)) < 3:
+      continue
+    case = {'family': 'fresult', 'pos': pos, 'chain': chain, 'records': g.enc(records),
+            'num_threads': nt, 'ignore_error': ignore,
+            'feed': rng.choice(['list', 'list', 'seq_ds']), 'fail': {}, 'src': None}
+    return case, (tidx, len(probe.keys), exc, form)
+  return None, None
+
+
+def run_fresult_scenario(ctx, rseed, sidx, tier, max_cases=None):
+  from vlib.props import C12
+  case, units = gen_fresult(rseed, sidx, tier)
+  if case is None:
+    ctx.count('fresult_not_generated')
+    return
+  ctx.count('fresult_scenarios')
+  tidx, n_units, exc, form = units
+  rng = random.Random(f'C12US:{rseed}:{sidx}')
+  for pos in itertools.islice(_src_subsets(n_units, tier, rng), max_cases):
+    c = copy.deepcopy(case)
+    c['fail'] = {str(tidx): {'pos': list(pos), 'exc': exc, 'mode': 'result',
+                             'form': form}}
+    C12.check_case(ctx, c)
+
+
+def fresult_mechanism(kind, case):
+  """Root-cause key of a violation of a case of the input class 'the predicate of a
+  filter returns a result that cannot be truth-tested', skipping on; else None."""
+  fails = list((case.get('fail') or {}).items())
+  if len(fails) != 1 or case.get('src') or not case['ignore_error']:
+    return None
+  k, f = fails[0]
+  if f.get('mode') != 'result' or case['chain'][int(k)]['op'] != 'filter':
+    return None
+  if kind in ('stream_differs', 'raised_while_skipping', 'sink_records', 'data_after_end'):
+    return M_TRUTH
+  return None
+
+
+# ---------------------------------------------------------------------------
+# restore: the original iterator of a checkpoint is dropped, its sink is shared
+# ---------------------------------------------------------------------------
+
+
+def gen_restore(rseed, idx, tier):
+  from vlib import pipeline_gen as g
+  rng = random.Random(f'C12X:{rseed}:{idx}')
+  kinds = [k for k in g.KINDS if k != 'batch'] + ['sink'] * 3
+  for _ in range(80):
+    shape = rng.choice(['int', 'dict', 'dict', 'list', 'tuple'])
+    _, records = g.gen_records(rng, shape=shape,
+                               n=rng.randint(3, 8 if tier == 'quick' else 16))
+    chain, stream, _ = g.gen_chain(rng, records, rng.choice([1, 2, 2, 3]), kinds=kinds,
+                                   rebatch_ok=False, c12_assign=True)
+    if not any(op['op'] == 'sink' for op in chain) or len(stream) < 2:
+      continue
+    for i, op in enumerate(chain):
+      op['id'] = i
+    n = len(stream)
+    cut = [0, n, rng.randint(1, n - 1), rng.randint(1, n - 1), rng.randint(1, n - 1),
+           rng.randint(0, n)][idx % 6]
+    # the original is dropped after `drop_after` further deliveries of the restored one
+    drop_after = 0 if rng.random() < 0.6 else rng.randint(1, max(1, n - cut))
+    return {'family': 'restore', 'chain': chain, 'records': g.enc(records),
+            'num_threads': 0, 'cut': cut, 'drop_after': min(drop_after, n - cut),
+            'source': rng.choice(['transform', 'iterate'])}
+  return None
+
+
+def check_restore(ctx, case):
+  import gc
+  from ml_metrics._src.chainables import io
+  from vlib import pipeline_gen as g
+  from vlib.oracles import pipeline_interp as interp
+  from vlib.props import C08, C12
+  records = g.dec(case['records'])
+  chain, cut, drop_after = case['chain'], case['cut'], case['drop_after']
+  try:
+    want, info = interp.run_chain(chain, records, g.resolve)
+  except Exception as e:  # pylint: disable=broad-exception-caught
+    ctx.inconclusive_case(f'oracle failed: {type(e).__name__}: {e}', case)
+    return
+  sink_logs = [info[i]['sink'] for i, op in enumerate(chain) if op['op'] == 'sink']
+  n = len(want)
+  cut = min(cut, n)
+  ctx.case(('c12x', case), 0 < cut < n)
+  ctx.count('restore_checks')
+  ctx.count('restore_cut_0' if cut == 0 else 'restore_cut_end' if cut == n
+            else 'restore_cut_inside')
+  ctx.count('restore_dropped_before_restored_runs' if drop_after == 0
+            else 'restore_dropped_while_restored_runs')
+
+  def viol(kind, detail, lifecycle=False):
+    # input class: the original had started (it delivered >= 1 record) when it was
+    # dropped; only violations of the life cycle of the shared sink belong to it
+    mech = M_ABANDONED if lifecycle and cut >= 1 else f'{kind}:restore'
+    ctx.count('viol:' + mech)
+    if not keep_witness(ctx, kind, mech):
+      return
+    ctx.violation(kind, case, dict(detail, cut=cut, drop_after=drop_after,
+                                   chain=[C08.op_tags(op) for op in chain]),
+                  mechanism=mech)
+
+  t, sinks = build_logged(chain, g.resolve)
+  got, err = [], None
+  try:
+    if case['source'] == 'transform':
+      from ml_metrics._src.chainables import transform
+      head = transform.TreeTransform.new().data_source(io.SequenceDataSource(records))
+      it = head.chain(t).make().iterate()
+    else:
+      it = t.make().iterate(io.SequenceDataSource(records))
+    for _ in range(cut):
+      got.append(next(it))
+    restored = it.from_state(it.state)
+    for _ in range(drop_after):
+      got.append(next(restored))
+    del it
+    gc.collect()
+    limit = 10 * len(records) + 50
+    for x in restored:
+      got.append(x)
+      if len(got) > limit:
+        break
+  except Exception as e:  # pylint: disable=broad-exception-caught
+    err = f'{type(e).__name__}: {str(e)[:200]}'
+  if err is not None:
+    viol('raised_without_fault', {'error': err, 'delivered': C08.short(got)})
+    return
+  ctx.count('restore_delivered_once_checks')
+  if not C08.same(got, want):
+    viol('stream_differs', {'got': C08.short(got, 400), 'want': C08.short(want, 400)})
+  for j, (sink, log) in enumerate(zip(sinks, sink_logs, strict=True)):
+    events = list(sink.events)
+    kinds = [k for k, _ in events]
+    shown = [k if k == 'close' else 'write' + C08.short(x[0], 40) for k, x in events]
+    ctx.count('restore_written_once_checks')
+    if not C08.same([x for k, x in events if k == 'write'], log):
+      viol('sink_records', {'sink': j, 'got': C08.short(sink.data), 'want': C08.short(log)})
+    ctx.count('restore_close_once_checks')
+    n_close = kinds.count('close')
+    if n_close == 0:
+      viol('sink_not_closed', {'sink': j, 'events': shown})
+      continue
+    late = kinds[kinds.index('close'):].count('write')
+    if late:
+      viol('sink_write_after_close', {'sink': j, 'writes_after_first_close': late,
+                                      'close_calls': n_close, 'events': shown},
+           lifecycle=True)
+    if n_close > 1:
+      viol('sink_closed_more_than_once', {'sink': j, 'close_calls': n_close,
+                                          'events': shown}, lifecycle=True)
+  extra = _further_next(restored)
+  if any(k == 'data' for k, _ in extra):
+    viol('data_after_end', {'extra': C08.short(extra)})
+  if len(ctx.samples) < 6 and 0 < cut < n:
     ctx.sample({k: v for k, v in case.items() if k != 'records'})
